@@ -28,6 +28,9 @@ def inverse_workers(cfg, names, dims):
     return [(a.inv_worker(n, 'A'), a.inv_worker(n, 'G')) for n in names]
 
 
+DT = {'torch.float16': 1, 'torch.bfloat16': 2, 'torch.float32': 3, 'torch.float64': 4}
+
+
 def hp_spec(v):
     if isinstance(v, list) and v and v[0] == 'table':
         return ['t', [int(x) for x in v[1]]]
@@ -44,7 +47,10 @@ def model_args(cfg, hist):
     if meth == 1 and any(a != g for a, g in wk):
         return None
     dtype = getattr(torch, cfg.get('model_dtype', 'float32'))
-    fsz = torch.empty(0, dtype=getattr(torch, cfg['factor_dtype']) if cfg.get('factor_dtype') else dtype).element_size()
+    fdtype = getattr(torch, cfg['factor_dtype']) if cfg.get('factor_dtype') else dtype
+    fsz = torch.empty(0, dtype=fdtype).element_size()
+    # dtype tags: factors (factor_dtype or the dtype of the activations), second-order data (inv_dtype), gradients (parameters)
+    dts = [DT[str(fdtype)], DT['torch.' + (cfg.get('inv_dtype') or 'float32')], DT[str(dtype)]]
     model = kfacrun.make_model(cfg['model'], cfg.get('model_seed', 0), dtype)
     user = [q.numel() for q in model.parameters()]
     hevs, nsave = [], 0
@@ -74,7 +80,7 @@ def model_args(cfg, hist):
     else:
         cap = -1
     players = [[d[0], d[1], a, g] for d, (a, g) in zip(dims, wk)]
-    return [W, k, meth, int(cfg['symmetry_aware']), fsz, players, cap, int(cfg['update_factors_in_hook']), int(cfg['accumulation_steps']),
+    return [W, k, meth, int(cfg['symmetry_aware']), fsz, dts, players, cap, int(cfg['update_factors_in_hook']), int(cfg['accumulation_steps']),
             hp_spec(cfg.get('factor_update_steps', 1)), hp_spec(cfg.get('inv_update_steps', 1)), hevs]
 
 
@@ -82,17 +88,17 @@ KIND = {'all_reduce': 1, 'broadcast': 2}
 
 
 def observed(w, W):
-    """per-rank data collectives of a simdist world as (members, kind, numel, root + 1)"""
+    """per-rank data collectives of a simdist world as (members, kind, numel, dtype tag, root + 1)"""
     out = [[] for _ in range(W)]
     for (rank, kind, grp, numel, dtype, root, seq) in w.log:
         if kind in KIND and grp is not None:
-            out[rank].append((tuple(grp), KIND[kind], numel, 0 if root is None else root + 1))
+            out[rank].append((tuple(grp), KIND[kind], numel, DT.get(dtype, 0), 0 if root is None else root + 1))
     return out
 
 
 def expected(margs):
     members, per_rank, order = common.run_model([('kfac_comm', margs)])[0]
-    return [[(tuple(members[g]), kind, n, root) for g, kind, n, root in l] for l in per_rank], len(order)
+    return [[(tuple(members[g]), kind, n, dt, root) for g, kind, n, dt, root in l] for l in per_rank], len(order)
 
 
 def compare(cfg, hist, w):
